@@ -66,12 +66,16 @@ func init() {
 	add("window-start-negative", true, "toma", "", "topa", "")
 	add("window-end-negative", true, "toma", "", "topa", "")
 	add("bad-suffix", false, "variants", "anno", "samvar", "anno")
+	// the reference row is not in the annotation's coordinates: its length differs from the end of
+	// the GFF's ##sequence-region (every row of the alignment lost or gained the same columns), with
+	// the reference record named like the region's sequence or differently (MN908947.3 vs NC_045512.2)
+	add("ref-length-vs-gff-region", true, "variants", "msa", "variants-stdin", "msa")
 	add("no-size-option", false, "toprank", "", "toprank-csv", "")
 
 	fw.Register(&fw.Property{
 		ID:    "C18",
 		Level: "fault_enumeration",
-		Rule: "for each command a valid input bundle (generated per seed) is run once unchanged (must exit 0) and then once per corruption: every corruption kind the property lists (unequal row length, non-IUPAC symbol, missing file, empty file / empty SAM stream, header-less SAM, reference/alignment width mismatch, query/target width mismatch, two records in --reference, empty CSV, CSV with a wrong header, malformed CSV row, window start<1 / end>L / start>end, unknown annotation suffix, topranking without size/dist option) x position {first, middle, last record} x each input file of the command, through the race-built binary; the observed event is the exit status, stdout and (on watchdog expiry) the goroutine dump; " +
+		Rule: "for each command a valid input bundle (generated per seed) is run once unchanged (must exit 0) and then once per corruption: every corruption kind the property lists (unequal row length, non-IUPAC symbol, missing file, empty file / empty SAM stream, header-less SAM, reference/alignment width mismatch, query/target width mismatch, two records in --reference, empty CSV, CSV with a wrong header, malformed CSV row, window start<1 / end>L / start>end, unknown annotation suffix, a reference whose length is not the end of the GFF's ##sequence-region, topranking without size/dist option) x position {first, middle, last record} x each input file of the command, through the race-built binary; the observed event is the exit status, stdout and (on watchdog expiry) the goroutine dump; " +
 			"distinct non-trivial = distinct (command, corruption kind, input file, position) faults injected",
 		Assumptions: []string{"a Go panic's exit status 2 counts as refusal (the property asks for a non-zero exit and no silent success)",
 			"a header-less SAM file is judged for toMultiAlign, which needs the header; toPairAlign and sam variants neither document nor use it, there exit 0 is accepted iff the output equals the run with the header restored",
@@ -102,10 +106,13 @@ type c18Bundle struct {
 	suffix  string
 }
 
-func c18MakeBundle(r *fw.Rng) c18Bundle {
+func c18MakeBundle(r *fw.Rng, bundleNo int) c18Bundle {
 	var b c18Bundle
 	opts := gen.AnnoOpts{MaxFeats: 3, SplitCodons: true}
-	ac := makeAnnoCase(r, false, []string{"gb", "gff"}[r.Intn(2)], "fasta", gen.VarProfile{PSub: 0.08, PAmbig: 0.2}, 1, opts)
+	// the annotation format alternates with the bundle number, so that two bundles (the quick tier)
+	// cover both
+	format := []string{"gb", "gff"}[bundleNo%2]
+	ac := makeAnnoCase(r, false, format, "fasta", gen.VarProfile{PSub: 0.08, PAmbig: 0.2}, 1, opts)
 	an := ac.an
 	b.W = len(an.Ref)
 	b.ref = gen.FastaRec{ID: an.RefName, Desc: an.RefName, Seq: an.Ref}
@@ -129,6 +136,10 @@ func c18MakeBundle(r *fw.Rng) c18Bundle {
 	b.sam.Text = strings.ReplaceAll(b.sam.Text, "\t"+b.sam.RefName+"\t", "\t"+an.RefName+"\t")
 	b.anno, b.suffix = ac.annoTxt, ac.format
 	if ac.format == "gff" && !strings.Contains(ac.annoTxt, "##FASTA") {
+		b.anno = gen.RenderGFF(r, an, true)
+	}
+	// the GFF bundle carries a ##sequence-region line (as the files NCBI and the repository ship do)
+	for tries := 0; ac.format == "gff" && !strings.Contains(b.anno, "##sequence-region") && tries < 20; tries++ {
 		b.anno = gen.RenderGFF(r, an, true)
 	}
 	return b
@@ -163,7 +174,7 @@ func runC18(c *fw.Ctx, idx int) fw.Result {
 		return res
 	}
 	r := fw.NewRng(c.Seed, "C18bundle", bundleNo)
-	b := c18MakeBundle(r)
+	b := c18MakeBundle(r, bundleNo)
 	d := filepath.Join(c.Tmp, fmt.Sprintf("c18-%d", idx))
 	os.MkdirAll(d, 0755)
 	defer os.RemoveAll(d)
@@ -209,6 +220,7 @@ func runC18(c *fw.Ctx, idx int) fw.Result {
 		ext["query"], ext["target"] = ".csv", ".csv"
 	}
 	extra := []string{}
+	refIDOverride := ""
 	valid := map[string]string{}
 	for k, v := range files {
 		valid[k] = v
@@ -356,6 +368,26 @@ func runC18(c *fw.Ctx, idx int) fw.Result {
 		extra = []string{"--start", fmt.Sprint(s), "--end", fmt.Sprint(s - 1)}
 	case "bad-suffix":
 		ext["anno"] = []string{".txt", ".gbk", ".gff3", ""}[idx%4]
+	case "ref-length-vs-gff-region":
+		if b.suffix != "gff" || !strings.Contains(b.anno, "##sequence-region") {
+			res.Count("cases_not_applicable_to_this_bundle", 1)
+			res.Evals++
+			return res
+		}
+		recs := append([]gen.FastaRec{}, b.msa...)
+		k := []int{1, 5, 33}[pos%3]
+		for i := range recs {
+			if idx%2 == 0 && len(recs[i].Seq) > k+3 {
+				recs[i].Seq = recs[i].Seq[:len(recs[i].Seq)-k]
+			} else {
+				recs[i].Seq += strings.Repeat("A", k)
+			}
+		}
+		if (idx/2)%2 == 0 {
+			refIDOverride = b.ref.ID + "_as_named_in_the_alignment"
+			recs[0].ID, recs[0].Desc = refIDOverride, refIDOverride
+		}
+		files["msa"] = gen.RenderFasta(recs, []int{0, 60}[idx%2])
 	}
 	if strings.HasSuffix(sp.kind, "+pad") {
 		// an out-of-range window is refused whether or not the outside is to be padded
@@ -380,9 +412,17 @@ func runC18(c *fw.Ctx, idx int) fw.Result {
 		case "samvar":
 			a = []string{"sam", "variants", "-s", path("sam", content), "-r", path("ref", content), "-a", path("anno", content), "-t", "2"}
 		case "variants":
-			a = []string{"variants", "--msa", path("msa", content), "-r", b.ref.ID, "-a", path("anno", content), "-t", "2"}
+			rid := b.ref.ID
+			if withExtra && refIDOverride != "" {
+				rid = refIDOverride
+			}
+			a = []string{"variants", "--msa", path("msa", content), "-r", rid, "-a", path("anno", content), "-t", "2"}
 		case "variants-stdin":
-			a = []string{"variants", "-r", b.ref.ID, "-a", path("anno", content), "-t", "2"}
+			rid := b.ref.ID
+			if withExtra && refIDOverride != "" {
+				rid = refIDOverride
+			}
+			a = []string{"variants", "-r", rid, "-a", path("anno", content), "-t", "2"}
 			stdin = []byte(content["msa"])
 		case "snps":
 			a = []string{"snps", "-r", path("ref", content), "-q", path("query", content)}
